@@ -210,21 +210,29 @@ func (t *Dense) TensorMul(other Tensor, axesA, axesB []int) (retVal *Dense, err 
 	os := other.Shape()
 	od := len(os)
 
+	// work on private copies of the axes, with negative axes resolved before they are used as indices:
+	// the caller's slices are never written to
+	axesA = append([]int(nil), axesA...)
+	axesB = append([]int(nil), axesB...)
+	for i := range axesA {
+		if axesA[i] < 0 {
+			axesA[i] += td
+		}
+	}
+	for i := range axesB {
+		if axesB[i] < 0 {
+			axesB[i] += od
+		}
+	}
+
 	na := len(axesA)
 	nb := len(axesB)
 	sameLength := na == nb
 	if sameLength {
 		for i := 0; i < na; i++ {
-			if ts[axesA[i]] != os[axesB[i]] {
+			if axesA[i] < 0 || axesA[i] >= td || axesB[i] < 0 || axesB[i] >= od || ts[axesA[i]] != os[axesB[i]] {
 				sameLength = false
 				break
-			}
-			if axesA[i] < 0 {
-				axesA[i] += td
-			}
-
-			if axesB[i] < 0 {
-				axesB[i] += od
 			}
 		}
 	}
@@ -252,7 +260,9 @@ func (t *Dense) TensorMul(other Tensor, axesA, axesB []int) (retVal *Dense, err 
 	newAxesA := BorrowInts(len(notins) + len(axesA))
 	defer ReturnInts(newAxesA)
 	newAxesA = newAxesA[:0]
-	newAxesA = append(notins, axesA...)
+	// not append(notins, ...): notins is reused for the other operand below and would be overwritten
+	newAxesA = append(newAxesA, notins...)
+	newAxesA = append(newAxesA, axesA...)
 	n2 := 1
 	for _, a := range axesA {
 		n2 *= ts[a]
@@ -288,7 +298,9 @@ func (t *Dense) TensorMul(other Tensor, axesA, axesB []int) (retVal *Dense, err 
 	newAxesB := BorrowInts(len(notins) + len(axesB))
 	defer ReturnInts(newAxesB)
 	newAxesB = newAxesB[:0]
-	newAxesB = append(axesB, notins...)
+	// not append(axesB, ...): that may write into the spare capacity of the caller's slice
+	newAxesB = append(newAxesB, axesB...)
+	newAxesB = append(newAxesB, notins...)
 
 	newShapeO := Shape(BorrowInts(2))
 	defer ReturnInts(newShapeO)
